@@ -20,6 +20,8 @@ def emit(R, contracts=None, loops=None):
         b = R.sub("R10-work-set", r'const\s+MultiIndexSet\s*&work\s*=\s*\(points\.empty\(\)\)\s*\?\s*needed\s*:\s*points\s*;', 'int work = (self->points_n == 0) ? self->needed_n : self->points_n;', b)
         b = R.sub("R10-receiver-call", r'\bwork\.getNumIndexes\(\)', 'work', b)
         b = R.sub("R10-receiver-call", r'\bwork\.getIndex\(\s*i\s*\)', 'i', b)
+        b = R.sub("R10-set-size", r'(?<![\w.>_])(points|needed)\.getNumIndexes\(\)', r'self->\1_n', b)
+        b = R.sub("R10-set-size", r'(?<![\w.>_])(points|needed)\.empty\(\)', r'(self->\1_n == 0)', b)
         b = R.sub("R10-self-call", r'(?<![\w.>_])(evalIntegral|evalBasis|evalDiffBasis)\s*\(', r'GridWavelet_\1(self, ', b)
         b = R.sub("R10-member-call", r'\binter_matrix\.getNumRows\(\)', 'WaveletBasisMatrix_getNumRows(&self->inter_matrix)', b)
         b = R.sub("R10-member-call", r'\binter_matrix\.invertTransposed\(\s*acceleration\s*,\s*', 'WaveletBasisMatrix_invertTransposed(&self->inter_matrix, ', b)
